@@ -1,7 +1,7 @@
 """C01: GenBank write-read-write closure and fidelity (spec/GenBank.tla)."""
 import os
 
-from fam_generic import Family, run_family
+from fam_generic import Family, run_family, run_families
 from vcore import REPO
 
 DEVS = '{"QuoteInValue", "TrailingBackslash", "OrganismWrap"}'
@@ -16,11 +16,11 @@ class GBFamily(Family):
 
 
 FAM = GBFamily(
-    "genbank", "MC_GenBank", "Trace_GenBank", "gbrec", devs=False,
-    rounds={"quick": [M("registry", mc=True), M("shapes"), M("dates", y0=1999, y1=2001), M("corpus", pipelen=1),
+    "genbank", "MC_GenBank", "Trace_GenBank", "gbrec", devs=False, case_fam=None,
+    rounds={"quick": [M("registry", mc=True), M("shapes"), M("dates", y0=1999, y1=2001), M("pad", y0=0, y1=4300, batch=25), M("corpus", pipelen=1),
                       M("corpus", pipelen=2, stride=7)],
-            "thorough": [M("registry", mc=True), M("shapes"), M("dates", y0=1900, y1=2100, batch=500),
-                         M("corpus", pipelen=2), M("corpus", pipelen=3, stride=2)]},
+            "thorough": [M("registry", mc=True), M("shapes"), M("dates", y0=1900, y1=2100, batch=500), M("pad", y0=0, y1=9000, batch=25),
+                         M("corpus", pipelen=2), M("corpus", pipelen=3), M("corpus", pipelen=4, stride=29)]},
     trace_consts=dict(Devs=DEVS),
     harness_args=["-data", os.path.join(REPO, "seqio", "testdata")],
     rule_text=("shapes: a base record with every alternative of every header field / feature table / qualifier form / "
@@ -35,5 +35,14 @@ FAM = GBFamily(
 )
 
 
+PIPE = Family(
+    "clipipe", "MC_CliPipe", "Trace_CliPipe", "cli", devs=False, invariant=None, needs_gts=True, case_fam="clipipe",
+    rounds={"quick": [dict(consts=dict(Stride=3, Offset=0), mc=False)], "thorough": [dict(consts=dict(Stride=1, Offset=0), mc=False)]},
+    rule_text=("command-line clause: every pipeline gts A < input | gts B over five corpus inputs, 23 record-producing "
+               "commands A and 8 reading commands B; what A writes B must accept, what B writes seqio must read back and "
+               "re-write byte for byte"),
+)
+
+
 def run(prop, tier, seed, replay=None):
-    return run_family(FAM, prop, tier, seed, replay)
+    return run_families([FAM, PIPE], prop, tier, seed, replay)
